@@ -18,6 +18,8 @@ Reference-model differential monitor.  Four workloads, all on the REAL xdsl.util
 sys.monitoring PY_START counters on the anchored functions show reach."""
 import dataclasses
 import json
+import mmap
+import os
 import random
 import sys
 import time
@@ -54,10 +56,10 @@ ASSUMPTIONS = ["option string values are sequences of Unicode scalar values (no 
 JOB_TIMEOUT = {"quick": 300, "thorough": 2400}
 
 SIZES = {
-    "quick": {"rt_shards": 16, "rt_assign": 60, "as_shards": 4, "as_n": 2500, "pipe_shards": 4, "pipe_n": 600,
-              "fuzz_shards": 12, "fuzz_n": 6000},
-    "thorough": {"rt_shards": 32, "rt_assign": 2000, "as_shards": 8, "as_n": 60000, "pipe_shards": 8, "pipe_n": 25000,
-                 "fuzz_shards": 48, "fuzz_n": 42000},
+    "quick": {"rt_shards": 8, "rt_assign": 100, "as_shards": 2, "as_n": 4000, "pipe_shards": 3, "pipe_n": 800,
+              "fuzz_shards": 10, "fuzz_n": 5000},
+    "thorough": {"rt_shards": 16, "rt_assign": 3000, "as_shards": 8, "as_n": 60000, "pipe_shards": 16, "pipe_n": 15000,
+                 "fuzz_shards": 32, "fuzz_n": 60000},
 }
 CPU_BUDGET = (0.5, 0.0005)  # seconds: a + b*len(input); measured normal cost is <= ~6 us per input character (linear)
 
@@ -173,23 +175,30 @@ def _synthetic(E):
     return {c.name: c for c in (SynthFloat, SynthOpt, SynthTarget)}
 
 
-def _classes(E):
+def _factories(E):
+    """label -> zero-argument factory of every option-carrying class known to the repo (passes, targets) and the
+    synthetic ones; nothing is imported until a factory is called."""
     from xdsl.targets import get_all_targets
     from xdsl.transforms import get_all_passes
     out = {}
-    passes = {}
-    for n, f in sorted(get_all_passes().items()):
-        cls = f()
-        passes[n] = cls
-        out["pass:" + n] = cls
-    for n, f in sorted(get_all_targets().items()):
-        try:
-            out["target:" + n] = f()
-        except ImportError:  # optional backend dependency missing
-            continue
+    for n, f in get_all_passes().items():
+        out["pass:" + n] = f
+    for n, f in get_all_targets().items():
+        out["target:" + n] = f
     for n, c in _synthetic(E).items():
-        out["synth:" + n] = c
-    return out, passes
+        out["synth:" + n] = (lambda c=c: c)
+    return out
+
+
+def _materialize(facts, labels, O=None):
+    out = {}
+    for label in labels:
+        try:
+            out[label] = facts[label]()
+        except ImportError:  # optional backend dependency missing
+            if O is not None:
+                O.setadd("classes_not_importable", label)
+    return out
 
 
 # ----------------------------------------------------------------------------- helpers
@@ -475,10 +484,9 @@ def gen_kw(cls, hints, rng, hostile):
 
 def work_rt(E, job, O):
     rng = random.Random(job["seed"])
-    classes, _ = _classes(E)
-    names = sorted(classes)
-    O.C["classes_total"] = 0
-    mine = names[job["shard"]::job["nshards"]]
+    facts = _factories(E)
+    classes = _materialize(facts, sorted(facts)[job["shard"]::job["nshards"]], O)
+    mine = sorted(classes)
     for label in mine:
         cls = classes[label]
         hints = typing.get_type_hints(cls)
@@ -498,8 +506,7 @@ def work_rt(E, job, O):
 
 
 def work_rt1(E, job, O):
-    classes, _ = _classes(E)
-    cls = classes[job["class"]]
+    cls = _factories(E)[job["class"]]()
     hints = typing.get_type_hints(cls)
     kw = {k: dec(v) for k, v in job["kw"].items()}
     check_instance(E, O, job["class"], cls, hints, kw, random.Random(0), variants=(job["variant"],))
@@ -612,10 +619,14 @@ def work_argspec(E, job, O):
 # ----------------------------------------------------------------------------- pipelines
 def work_pipe(E, job, O):
     rng = random.Random(job["seed"])
-    classes, passes = _classes(E)
-    synth_pass = classes["synth:xv-synth-opt"]
-    avail = {n: (lambda c=c: c) for n, c in passes.items()}
-    avail[synth_pass.name] = lambda: synth_pass
+    facts = _factories(E)
+    labels = rng.sample(sorted(k for k in facts if k.startswith("pass:")), job.get("classes", 45)) + ["synth:xv-synth-opt"]
+    classes = _materialize(facts, labels, O)
+    registry = {k[5:]: f for k, f in facts.items() if k.startswith("pass:")}  # the lazy registry, as xdsl-opt passes it
+    registry["xv-synth-opt"] = facts["synth:xv-synth-opt"]
+    avail = {c.name: registry[c.name] for c in classes.values()}
+    for label in classes:
+        O.setadd("pipe_classes", label)
     names = sorted(avail)
     with_opts = [n for n in names if _fields(avail[n]())]
     hints_of = {n: typing.get_type_hints(avail[n]()) for n in names}
@@ -643,7 +654,7 @@ def work_pipe(E, job, O):
         if any(s.parameters for s, _t in parts):
             O.nontrivial.add(shash(("pipe", sig, variant)))
         try:
-            pl = E.PassPipeline.parse_spec(avail, text)
+            pl = E.PassPipeline.parse_spec(registry, text)
             kind = "ok"
         except E.ParseErr as e:
             kind, err = "parse-error", e
@@ -790,7 +801,7 @@ def pathological(rng):
 
 def fuzz_one(E, O, s, avail, journal=None):
     if journal:
-        journal(json.dumps(s))
+        journal(s)
     O.evaluations += 1
     O.count("fuzz_strings")
     toks, lexed = R.lex_prefix(s)
@@ -869,10 +880,38 @@ def fuzz_one(E, O, s, avail, journal=None):
                 O.count("fuzz_reprint_ok")
 
 
+class Journal:
+    """In-flight input record that survives a killed worker without a write() per input: a shared file mapping of
+    the harness journal file (the harness reads its last 20000 bytes)."""
+    SIZE = 20000
+
+    def __init__(self):
+        self.mm = None
+        self.prev = 0
+        path = os.environ.get("XV_JOURNAL")
+        if path:
+            with open(path, "wb") as f:
+                f.write(b" " * self.SIZE)
+            self.f = open(path, "r+b")
+            self.mm = mmap.mmap(self.f.fileno(), self.SIZE)
+
+    def __call__(self, s: str):
+        if self.mm is None:
+            return
+        b = json.dumps(s).encode("ascii")
+        if len(b) > self.SIZE:
+            b = json.dumps({"truncated_input_of_length": len(s), "head": s[:3000]}).encode("ascii")
+        n = len(b)
+        self.mm[0:n] = b
+        if self.prev > n:
+            self.mm[n:self.prev] = b" " * (self.prev - n)
+        self.prev = n
+
+
 def _fuzz_pool(E, rng, classes):
     pool = list(SEEDS)
     labels = sorted(classes)
-    for _ in range(250):
+    for _ in range(300):
         label = rng.choice(labels)
         cls = classes[label]
         hints = typing.get_type_hints(cls)
@@ -886,11 +925,14 @@ def _fuzz_pool(E, rng, classes):
 
 
 def work_fuzz(E, job, O):
-    from xv.worker import journal
+    journal = Journal()
     rng = random.Random(job["seed"])
-    classes, passes = _classes(E)
-    avail = {n: (lambda c=c: c) for n, c in passes.items()}
-    pass_names = sorted(passes)
+    facts = _factories(E)
+    labels = rng.sample(sorted(k for k in facts if k.startswith("pass:")), job.get("classes", 30)) + \
+        ["target:mlir", "synth:xv-synth-opt", "synth:xv-synth-float"]
+    classes = _materialize(facts, labels, O)
+    avail = {k[5:]: f for k, f in facts.items() if k.startswith("pass:")}  # lazy registry
+    pass_names = sorted(c.name for l, c in classes.items() if l.startswith("pass:"))
     pool = _fuzz_pool(E, rng, classes)
     for s in pool[:len(SEEDS)]:
         fuzz_one(E, O, s, avail, journal)
@@ -937,8 +979,7 @@ def work(job):
     elif kind == "fuzz":
         work_fuzz(E, job, O)
     elif kind == "fuzz1":
-        classes, passes = _classes(E)
-        fuzz_one(E, O, job["s"], {n: (lambda c=c: c) for n, c in passes.items()})
+        fuzz_one(E, O, job["s"], {k[5:]: f for k, f in _factories(E).items() if k.startswith("pass:")})
     else:
         raise ValueError(kind)
     return O.result(E)
@@ -952,6 +993,12 @@ def on_lost(info):
                 s = json.loads(j)
             except ValueError:
                 s = j
+            if not s:
+                return None
+            if isinstance(s, dict):
+                return [{"key": "hang:parse_pipeline", "summary": f"worker timed out while parsing {s['head'][:80]!r}...",
+                         "witness": {"input_head": s["head"], "input_length": s["truncated_input_of_length"],
+                                     "job": info["job"]}}]
             return [{"key": "hang:parse_pipeline", "summary": f"worker timed out while parsing {s[:80]!r}",
                      "witness": {"input": s, "replay_job": {"kind": "fuzz1", "s": s}}}]
     return None
